@@ -558,7 +558,7 @@ def random_store(rnd, big):
                 recs.append([m, name, True, True, v, rnd.random() >= pfail, rnd.randint(0, 500)])
             for _ in range(rnd.choice([0, 0, 1, 3, 7])):
                 recs.append([m, name, True, False, rnd.randint(0, vmax * 2), rnd.random() >= 0.5, rnd.randint(0, 600)])
-        if rnd.random() < 0.1:
+        if rnd.random() < 0.3:  # dependent timings: same task, other operation type
             for _ in range(rnd.randint(1, 3)):
                 recs.append(["svc", name, False, rnd.random() < 0.8, rnd.randint(0, vmax), rnd.random() < 0.5, rnd.randint(0, 600)])
     for g in ("g_tt", "g_ygc", "g_mseg", "g_segc"):
@@ -655,8 +655,10 @@ def run(ctx, out):
         "'results' of C08 = the statistics (throughput summary, percentile tables, means, error rate); the unit string and the "
         "task duration (not in the summary report, taken from the latest service_time record of any sample type) are only "
         "checked for conformance with the transcription (L2) and for the round trip",
-        "clauses about one (task, metric) are stated where 'the requests of the task' is unambiguous: no normal record of that "
-        "task with another operation type (dependent timings of composite operations); those are covered by L2 only",
+        "'the requests / samples of the task' = normal records with the task's name AND the task's own operation type (the intent of "
+        "get_error_rate(task, operation_type, sample_type) and of every getter call of GlobalStatsCalculator): service_time records of "
+        "the same task with another operation type and their own success flags (dependent timings of the sub-requests of a composite "
+        "operation) must not enter the task's error rate or statistics; judged at L1 (ErrorRate, MeanMinMax, percentile clauses)",
         "every reported percentile (tables, throughput median, direct getter answers) must be the linear-interpolation value "
         "(rank p/100*(n-1), interpolation between the neighbouring sorted values) up to the float tolerance above: L1 clause "
         "PctLinearInterpolation; which percentiles are reported for which n (thresholds 1/10/100/1000/10000) and the error rate "
